@@ -123,6 +123,11 @@ func (c *container) addKv(key, value string) ([]string, bool) {
 	defer c.lock.Unlock()
 
 	c.dirty.Set(true)
+	// a key carries one value at a time, if the key comes with a new value,
+	// detach it from the previous one, otherwise the stale value stays forever.
+	if old, ok := c.mapping[key]; ok && old != value {
+		c.doRemoveKey(key)
+	}
 	keys := c.values[value]
 	previous := append([]string(nil), keys...)
 	early := len(keys) > 0
